@@ -64,7 +64,7 @@ pub async fn bootstrap(s: &mut Sim, rng: &mut Rng) -> G {
     s.op(tx(vec![c, i])).await;
     // validators' deposits
     for n in &nodes {
-        if rng.chance(1, 6) { s.op(Op::Airdrop(K::RdDeposit(b(n)), *rng.pick(&[1u64, 1_000_000, 2_000_000_000]))).await; }
+        if *n != nodes[6] && *n != nodes[7] && rng.chance(1, 6) { s.op(Op::Airdrop(K::RdDeposit(b(n)), *rng.pick(&[1u64, 1_000_000, 2_000_000_000]))).await; }
         let ix = s.rd_initialize_deposit(&g.payer, n); s.op(tx(vec![ix])).await;
         if *n != nodes[6] && *n != nodes[7] && rng.chance(5, 6) { s.op(Op::Airdrop(K::RdDeposit(b(n)), rng.range(1, 50) * 1_000_000_000)).await; }
     }
@@ -268,15 +268,36 @@ async fn run(mut s: Sim, mut rng: Rng, len: usize) -> Sim {
     s
 }
 
+/// Guard-directed twins of an honest instruction: the same instruction with one account-list fault (substituted key,
+/// cleared signer / writable flag, dropped account, aliased positions), or submitted while the program is paused,
+/// each of which must be refused without effect; then the honest instruction itself.
+async fn go(s: &mut Sim, rng: &mut Rng, g: &mut G, ix: crate::sim::Ix) -> bool {
+    for _ in 0..rng.below(3) {
+        let (f, _) = fault(rng, ix.clone(), &g.universe);
+        s.op(tx(vec![f])).await;
+    }
+    if rng.chance(1, 12) && !g.paused {
+        let p = s.rd_configure(&g.admin, RdSetting::Paused(true));
+        if s.op(tx(vec![p])).await {
+            s.op(tx(vec![ix.clone()])).await;
+            let u = s.rd_configure(&g.admin, RdSetting::Paused(false)); s.op(tx(vec![u])).await;
+        }
+    }
+    if rng.chance(1, 15) { // a signer of the honest instruction replaced by another wallet that does sign
+        if let Some(pos) = ix.metas.iter().position(|m| m.1) { let other = rng.pick(&g.users).clone(); let f = ix.clone().with_key(pos, &other); s.op(tx(vec![f])).await; }
+    }
+    s.op(tx(vec![ix])).await
+}
+
 /// one honest step that the tracked state says is enabled (the bank decides; the tracking is only used to aim)
 async fn driver_step(s: &mut Sim, rng: &mut Rng, g: &mut G) -> bool {
-    if g.paused { let ix = s.rd_configure(&g.admin, RdSetting::Paused(false)); if s.op(tx(vec![ix])).await { g.paused = false; } return true; }
+    if g.paused { let ix = s.rd_configure(&g.admin, RdSetting::Paused(false)); if go(s, rng, g, ix).await { g.paused = false; } return true; }
     let ne = g.eps.len();
     if ne == 0 || (ne < 3 && rng.chance(1, 6)) {
         g.clock += g.init_grace * 60; s.op(Op::SetClock(g.clock)).await;
         if rng.chance(1, 3) { let amt = rng.range(1, 5_000_000); s.op(Op::MintTo(K::Ata(b(&K::RdJournal), b(&K::Mint)), amt)).await; }
         let e = ne as u64; let ix = s.rd_initialize_distribution(&g.debt_acc, &g.payer, e);
-        if s.op(tx(vec![ix])).await { g.eps.push(Ep { e, ..Default::default() }); g.universe.push(K::RdDist(e)); g.clock += g.calc_grace * 60; s.op(Op::SetClock(g.clock)).await; }
+        if go(s, rng, g, ix).await { g.eps.push(Ep { e, ..Default::default() }); g.universe.push(K::RdDist(e)); g.clock += g.calc_grace * 60; s.op(Op::SetClock(g.clock)).await; }
         return true;
     }
     let i = rng.below(ne as u64) as usize;
@@ -284,10 +305,10 @@ async fn driver_step(s: &mut Sim, rng: &mut Rng, g: &mut G) -> bool {
     if ep.debt.is_none() {
         let (t, total) = debt_tree(s, rng, g);
         let ix = s.rd_configure_debt(&g.debt_acc, ep.e, t.leaves.len() as u32, total, t.root);
-        if s.op(tx(vec![ix])).await { g.eps[i].debt = Some(t); g.eps[i].total_debt = total; }
+        if go(s, rng, g, ix).await { g.eps[i].debt = Some(t); g.eps[i].total_debt = total; }
         return true;
     }
-    if !ep.debt_final { let ix = s.rd_finalize_debt(&g.debt_acc, ep.e, &g.payer); if s.op(tx(vec![ix])).await { g.eps[i].debt_final = true; } return true; }
+    if !ep.debt_final { let ix = s.rd_finalize_debt(&g.debt_acc, ep.e, &g.payer); if go(s, rng, g, ix).await { g.eps[i].debt_final = true; } return true; }
     let t = ep.debt.clone().unwrap();
     let unsettled: Vec<u32> = (0..t.leaves.len() as u32).filter(|x| !ep.settled.contains(x)).collect();
     if !ep.swept && !unsettled.is_empty() && rng.chance(3, 4) {
@@ -296,26 +317,26 @@ async fn driver_step(s: &mut Sim, rng: &mut Rng, g: &mut G) -> bool {
         let poor = node == g.nodes[6] || node == g.nodes[7];
         let Some(p) = s.proof(&t, idx) else { return false };
         if poor && amount > 0 {
-            if !ep.wo { let ix = s.rd_enable_write_off(ep.e, &g.payer); if s.op(tx(vec![ix])).await { g.eps[i].wo = true; } return true; }
+            if !ep.wo { let ix = s.rd_enable_write_off(ep.e, &g.payer); if go(s, rng, g, ix).await { g.eps[i].wo = true; } return true; }
             let target = if rng.chance(1, 2) { ep.e } else { ep.e + 1 };
             let ix = s.rd_write_off(&g.debt_acc, ep.e, &node, target, amount, &p);
-            if s.op(tx(vec![ix])).await { g.eps[i].settled.insert(idx); if let Some(te) = g.eps.iter_mut().find(|x| x.e == target) { te.uncollectible += amount; } }
+            if go(s, rng, g, ix).await { g.eps[i].settled.insert(idx); if let Some(te) = g.eps.iter_mut().find(|x| x.e == target) { te.uncollectible += amount; } }
         } else {
             if rng.chance(1, 2) { s.op(Op::Airdrop(K::RdDeposit(b(&node)), amount)).await; }
             let ix = s.rd_pay(ep.e, &node, amount, &p);
-            if s.op(tx(vec![ix])).await { g.eps[i].settled.insert(idx); }
+            if go(s, rng, g, ix).await { g.eps[i].settled.insert(idx); }
         }
         return true;
     }
     if ep.rew.is_none() {
         let t = reward_tree(s, rng, g);
         let ix = s.rd_configure_rewards(&g.rew_acc, ep.e, t.leaves.len() as u32, t.root);
-        if s.op(tx(vec![ix])).await { g.eps[i].rew = Some(t); }
+        if go(s, rng, g, ix).await { g.eps[i].rew = Some(t); }
         return true;
     }
     if !ep.rew_final {
         if (ne as u64) < ep.e + g.min_epochs { return false; }
-        let ix = s.rd_finalize_rewards(&g.payer, ep.e); if s.op(tx(vec![ix])).await { g.eps[i].rew_final = true; } return true;
+        let ix = s.rd_finalize_rewards(&g.payer, ep.e); if go(s, rng, g, ix).await { g.eps[i].rew_final = true; } return true;
     }
     if !ep.swept {
         if ep.e != g.next_sweep { return false; }
@@ -323,7 +344,7 @@ async fn driver_step(s: &mut Sim, rng: &mut Rng, g: &mut G) -> bool {
         if sol > 0 { let z = rng.range(0, 100_000_000_000);
             let ix = s.sw_buy(&g.fills, &K::Ata(b(&g.buyer), b(&K::Mint)), &g.buyer, &g.users[8], z, sol); s.op(tx(vec![ix])).await; }
         let ix = s.rd_sweep(ep.e, &g.swap, &g.fills);
-        if s.op(tx(vec![ix])).await { g.eps[i].swept = true; g.next_sweep += 1; }
+        if go(s, rng, g, ix).await { g.eps[i].swept = true; g.next_sweep += 1; }
         return true;
     }
     let rt = ep.rew.clone().unwrap();
@@ -335,6 +356,6 @@ async fn driver_step(s: &mut Sim, rng: &mut Rng, g: &mut G) -> bool {
     let recs: Vec<K> = g.recips[ci].iter().map(|x| x.0.clone()).collect();
     let Some(p) = s.proof(&rt, idx) else { return false };
     let ix = s.rd_distribute(ep.e, &contributor, &g.relayer, &recs, unit_share, packed & 0x3fff_ffff, &p);
-    if s.op(tx(vec![ix])).await { g.eps[i].distributed.insert(idx); } else { g.eps[i].distributed.insert(idx); }
+    if go(s, rng, g, ix).await { g.eps[i].distributed.insert(idx); } else { g.eps[i].distributed.insert(idx); }
     true
 }
